@@ -73,7 +73,8 @@ def run_property(pid, spec, tier, prog_loader):
     returns exit code"""
     t0 = time.time()
     seed = int(os.environ.get("VERIF_SEED", "0") or 0)
-    ev_path = os.path.join(VERIF, "evidence", pid + ".json")
+    evdir = os.environ.get("VERIF_EVIDENCE_DIR") or os.path.join(VERIF, "evidence")
+    ev_path = os.path.join(evdir, pid + ".json")
     os.makedirs(os.path.dirname(ev_path), exist_ok=True)
     if os.path.exists(ev_path):
         os.remove(ev_path)
@@ -112,7 +113,7 @@ def run_property(pid, spec, tier, prog_loader):
                 known_hits.append(i)
             else:
                 violations.append(i)
-    replay_dir = os.path.join(VERIF, "evidence", "replay")
+    replay_dir = os.path.join(evdir, "replay")
     os.makedirs(replay_dir, exist_ok=True)
     out_lines = []
     for i in known_hits:
